@@ -71,6 +71,12 @@ def k9_tool_reads(prog, ctx):
 
 def run(prog, ctx):
     k9_tool_reads(prog, ctx)
+    # K10: inserting or deleting a comment line must not change what the lines around it mean - in particular every other line keeps its
+    # one role (header, entry, continuation): the round of the line loop ends where the line has been dealt with
+    try:
+        parser.one_line_one_role(prog, ctx, "K10")
+    except Inconclusive as e:
+        ctx.inconclusive("K10", "a line plays one role", "", str(e))
     L = parser.landmarks(prog)
     f, cfg = L.fn, L.cfg
     ctx.touch(f)
